@@ -2204,4 +2204,22 @@ theorem dropSupers_ne_nil (H : Hier) (hH : HierFacts H) :
           · simpa using hs
         · exact hmin o (by simpa using ho) hne
 
+theorem updateAt_get_ne (f : Reg → Reg) : ∀ (w : List Reg) (i j : Nat), i ≠ j →
+    (updateAt f i w)[j]? = w[j]? := by
+  intro w
+  induction w with
+  | nil => intro i j _; cases i <;> rfl
+  | cons x xs ih =>
+    intro i j hij
+    cases i with
+    | zero =>
+      cases j with
+      | zero => exact absurd rfl hij
+      | succ m => rfl
+    | succ n =>
+      cases j with
+      | zero => rfl
+      | succ m => simpa [updateAt] using ih n m (by omega)
+
+
 end Glom.C13
